@@ -9,6 +9,7 @@ CONSTRUCTS = [
     ("if", None),  # wraps the rest
     ("newletter", "RxV = RxV + PtN;"),
     ("newexplicit", "RxV = RxV ^ P0_NEW;"),
+    ("newalias", "RxV = RxV - HEX_REG_ALIAS_LR_NEW;"),
     ("load", "RxV = RxV + (int32_t)mem_load_u8(RsV);"),
     ("store", "mem_store_u16(RsV, RxV);"),
     ("jump", "JUMP(RsV);"),
@@ -82,7 +83,7 @@ def run(tier):
     # (a) inductive step on the real state machine, arbitrary pre-state
     res = chrun.run_harness(HARNESS, 900 if thorough else 240, thorough=thorough)
     nconf = chrun.report(rep, HARNESS, res, "C13")
-    # (b) construct -> event mapping: all 2^9 combinations on a used transformer + two-part instructions
+    # (b) construct -> event mapping: all 2^10 combinations on a used transformer + two-part instructions
     progs = programs()
     singles = [(p,) for p in progs]
     pairs = [(progs[i], progs[(i * 37 + 11) % len(progs)]) for i in range(0, len(progs), 1 if thorough else 4)]
@@ -119,7 +120,7 @@ def run(tier):
     rep.coverage.update(
         explanation="(a) CrossHair on the real HexagonTransformerExtension: arbitrary pre-state (6 flags, leftover predicate entry on "
                     "instance and on class) -> reset_flags() -> 0..2 (thorough: 3) symbolic set_token_meta_data events -> get_meta() equals the "
-                    "specification computed from the events alone: one inductive step covers histories of any length.  (b) all 2^9 "
+                    "specification computed from the events alone: one inductive step covers histories of any length.  (b) all 2^10 "
                     "combinations of the attribute-relevant constructs compiled through transform_insn on a USED transformer, plus two-part "
                     "instructions, compared with the attribute set derived from my own AST of the same text.  (c) every accepted corpus "
                     "part, the no-op list (NONE) and the unimplemented marker (INVALID).",
